@@ -905,6 +905,37 @@ class Interp:
                 return ("app", "alt_payload<%s>" % ty, (v,))
             self.path.events.append(("UNSAFE", (v,), unit.loc(n.get("loc"))))
             return ("app", "alt_payload<%s>" % ty, (v,))
+        if qn == "fcppt::variant::apply" and len(args) == 2 and isinstance(args[0], Closure):
+            # semantic summary of std::visit over one variant: the visitor's call operator for the held
+            # alternative's type is applied to that alternative (alternatives are mutually exclusive)
+            f, v = args
+            ops = f.node.get("ops", [])
+            alts = []
+            for op in ops:
+                ps = op.get("params", [])
+                if len(ps) != 1:
+                    raise Unsupported("variant::apply visitor with %d parameters" % len(ps))
+                alts.append((_strip_cvref(f.unit.ty(ps[0]["t"])), op))
+            if not alts:
+                raise Unsupported("variant::apply visitor without instantiated call operators")
+            chosen = None
+            if isinstance(v, tuple) and v[0] == "new" and v[1] == VAR:
+                for ty, op in alts:
+                    if _norm_type(v[2]) == ty:
+                        chosen = (ty, op, v[3][0])
+            else:
+                for ty, op in alts[:-1]:
+                    if self.truth(self.var_holds(v, ty)):
+                        chosen = (ty, op, ("app", "alt_payload<%s>" % ty, (v,)))
+                        break
+                if chosen is None:
+                    ty, op = alts[-1]
+                    # the last alternative holds by exclusion: record it so that later holds<> tests agree
+                    self.assign[("app", "holds<%s>" % ty, (v,))] = True
+                    chosen = (ty, op, ("app", "alt_payload<%s>" % ty, (v,)))
+            if chosen is None:
+                raise Unsupported("variant::apply: no visitor specialisation for the held alternative")
+            return self.apply_lambda_op(f, chosen[1], [chosen[2]])
         if qn == "fcppt::variant::match" and len(args) >= 2:
             # semantic summary (its index selection is pinned by the C04 type witnesses): the i-th function is
             # applied to the payload of the i-th alternative, alternatives in type-list order, exactly one holds
